@@ -99,6 +99,13 @@ mod imp {
         match x % 8 {
             0 => (x >> 8) % 3,
             1 => 99 + (x >> 8) % 3,
+            // wide values: around 2^32, 2^63, 2^64 (where narrowing casts and signed arithmetic wrap)
+            2 => match (x >> 8) % 4 {
+                0 => (1u64 << 32) + (x >> 12) % 7,
+                1 => (1u64 << 32) * (1 + (x >> 12) % 3) + (x >> 16) % 7,
+                2 => (1u64 << 63) + (x >> 12) % 5,
+                _ => u64::MAX - (x >> 12) % 5,
+            },
             _ => (x >> 8) % 1103,
         }
     }
